@@ -126,6 +126,16 @@ def run(tier, seed, replay=None):
             progs.append((p, "solo:%s%s%s" % (c["ty"], c["op"], c["sp"]), ("solo", c, lm)))
     for name, p in corpus.programs():
         progs.append((p, "corpus:" + name, ("corpus", name, None)))
+    # layout-sensitive programs (pointer size 8 natively, 4 on wasm): the store / read-back / copy programs of C18 for
+    # the TLC-enumerated arrays of structs and nested arrays that both targets implement
+    from checks import c18
+    from vlib import laygen
+    lay, _ = c18.gen_types(env, "d2")
+    lay = [t for t in lay if t["k"] == "ar" and laygen.wasm_ok(t)]
+    if tier == "quick":
+        lay = rnd.sample(lay, min(len(lay), 14))
+    for t in lay:
+        progs.append((laygen.program(t), "layout:" + c18.sig(t), ("corpus", "layout:" + c18.sig(t), None)))
     n_rand = 200 if tier == "quick" else 5000
     for i in range(n_rand):
         s = seed * 100000 + i
